@@ -37,7 +37,7 @@ BUCKET = "elex-models-dev"
 
 
 def budget(tier):
-    return dict(nights=40, wall_s=150) if tier == "quick" else dict(nights=1200, wall_s=1500)
+    return dict(nights=40, wall_s=240) if tier == "quick" else dict(nights=1200, wall_s=1500)
 
 
 def make_history(rng, n):
